@@ -57,9 +57,9 @@ func init() {
 				{Func: "(*HeaderValidator).Validate", DataArg: 1},
 				{Func: "(*itemsValidator).Validate", DataArg: 2},
 			}, jsonDomain, "JSON value domain (raw document, defaults and examples are decoded JSON)"),
-			NilRule(nil), Bounds(nil), Cow,
+			NilRule(nil), Bounds(nil), Cow, ExpandFirst,
 		},
-		Explanation: "The same panic-freedom analyses as C06, from the entry points Spec / NewSpecValidator / (*SpecValidator).Validate: NIL over all functions (nil results of the visited-path heuristic, nil sections after failed expansion, nillable pointer fields of spec structs tested on the same access path, paired (value, error|ok|invalid-result) returns, interprocedural parameter nil-ness, the 'ensure map entry' idiom), PANIC-INVENTORY (reviewed explicit panics, divisions, unchecked assertions and kind-specific reflect calls legal for every dynamic type of decoded JSON reaching them, through the schema, parameter, header and items validators that judge defaults and examples), D-BOUND on every index/slice expression, constant Must-patterns parsed at analysis time.",
+		Explanation: "EXPAND-FIRST: the documented invalid-schema panic of newSchemaValidator is unreachable from spec validation only if every schema handed to it there is the Swagger meta-schema, a successfully expanded response schema, or dominated by a successful ExpandSchema (two sites violate this: known finding). The same panic-freedom analyses as C06, from the entry points Spec / NewSpecValidator / (*SpecValidator).Validate: NIL over all functions (nil results of the visited-path heuristic, nil sections after failed expansion, nillable pointer fields of spec structs tested on the same access path, paired (value, error|ok|invalid-result) returns, interprocedural parameter nil-ness, the 'ensure map entry' idiom), PANIC-INVENTORY (reviewed explicit panics, divisions, unchecked assertions and kind-specific reflect calls legal for every dynamic type of decoded JSON reaching them, through the schema, parameter, header and items validators that judge defaults and examples), D-BOUND on every index/slice expression, constant Must-patterns parsed at analysis time.",
 		NotDecided:  "Termination; panics inside dependencies (loader, analysis, spec expander); document shapes the loader itself rejects.",
 		Assumptions: []string{"the document loads (loads.Document non-nil, Spec() non-nil)", "decoded values belong to the JSON value domain", "elements of containers built by the dependencies are non-nil", "pure accessors return the same object when called twice", trustDeps},
 	}
